@@ -52,6 +52,9 @@ type RunResult struct {
 	Bounds      map[string]int    `json:"bounds"`
 	SampleQ     []string          `json:"sample_queries,omitempty"`
 	Solver      string            `json:"solver"`
+	Samples     []sym.PathSample  `json:"path_samples,omitempty"`
+	InitPoison  []string          `json:"init_poisoned,omitempty"`
+	Labels      []string          `json:"-"`
 }
 
 func cmdRun(args []string) int {
@@ -73,6 +76,7 @@ func cmdRun(args []string) int {
 	poll := fs.Int("poll-unwind", 0, "idle polling bound")
 	stopFirst := fs.Bool("stop-at-first", false, "stop at first violation")
 	slog := fs.String("solver-log", "", "log solver input to file")
+	samplePaths := fs.Int("sample-paths", 0, "record models+label traces of up to K complete paths")
 	fs.Parse(args)
 
 	t0 := time.Now()
@@ -107,6 +111,7 @@ func cmdRun(args []string) int {
 	defer pool.Close()
 	eng := sym.NewEngine(l.Prog, l.Fset, cfg, pool)
 	eng.RepoDir = *repo
+	eng.SamplePaths = *samplePaths
 	inits := l.InitOrder([]string{"github.com/ErdemOzgen/blackdagger"})
 	eng.Explore(entryFn, inits)
 	q, st, errs := pool.Stats()
@@ -116,7 +121,7 @@ func cmdRun(args []string) int {
 		AssertQ: map[string]int64{"sat": eng.AssertQ[0], "unsat": eng.AssertQ[1], "unknown": eng.AssertQ[2]},
 		SolverQ: q, SolverS: st.Seconds(), SolverErrs: errs, WallS: time.Since(t0).Seconds(), LoadS: loadS,
 		Reached: eng.Reached, AssertSites: eng.AssertSites, Functions: eng.FnsExec, Intrinsics: eng.IntrHit,
-		Violations: eng.Violations, Unsupported: eng.Unsupported, SampleQ: eng.SampleQ, Solver: *solver,
+		Violations: eng.Violations, Unsupported: eng.Unsupported, Samples: eng.Samples, InitPoison: eng.InitPoison, SampleQ: eng.SampleQ, Solver: *solver,
 		Bounds: map[string]int{"unwind": *unwind, "delays": *delays, "max_steps": *maxSteps}}
 	switch {
 	case eng.Aborted != "" && !(strings.HasPrefix(eng.Aborted, "violation found")):
